@@ -1,4 +1,8 @@
-"""c01 — decided by the per-construct contracts on extract_visitor (contracts/nast_flow.py) and the table lemmas"""
+"""C01 — names bound at run time are visible"""
 import contracts.nast_flow  # noqa
+import contracts.tables  # noqa
 
-INFO = {'not_decided': [], 'stated_lemmas': ['composition lemma (DESIGN 2.2)'], 'trusted': []}
+INFO = {'not_decided': ['match statements, PEP 695, except*, del, dynamic names (outside the domain)'],
+        'stated_lemmas': ['composition lemma (DESIGN 2.2): per-construct contracts + table lemmas => names_at(read) is the set of reaching definitions',
+                          'jump subsumption: states reachable through break/continue/return/raise are included in the jump-free state at identifier level'],
+        'trusted': []}
